@@ -78,10 +78,30 @@ const SUBST: [(&str, &[u8]); 8] = [("~e~", "\u{e9}".as_bytes()), ("~z~", "\u{4e2
 pub const BIG: &str = "~big~";
 pub const BIG_LEN: usize = 70_000;
 
+/// ~rnd~ expands to 70 000 bytes of deterministic noise over letters and digits (it hardly compresses)
+pub const RND: &str = "~rnd~";
+pub fn noise() -> &'static [u8] {
+    static N: std::sync::OnceLock<Vec<u8>> = std::sync::OnceLock::new();
+    N.get_or_init(|| {
+        let mut x: u64 = 0x9E37_79B9_7F4A_7C15;
+        (0..BIG_LEN).map(|_| {
+            x ^= x << 13;
+            x ^= x >> 7;
+            x ^= x << 17;
+            b"abcdefghijklmnopqrstuvwxyz0123456789"[(x % 36) as usize]
+        }).collect()
+    })
+}
+
 pub fn concretise(unit: &str) -> Vec<u8> {
     let mut out: Vec<u8> = Vec::new();
     let mut rest = unit;
     'outer: while !rest.is_empty() {
+        if rest.starts_with(RND) {
+            out.extend_from_slice(noise());
+            rest = &rest[RND.len()..];
+            continue;
+        }
         if rest.starts_with(BIG) {
             out.extend(std::iter::repeat(b'y').take(BIG_LEN));
             rest = &rest[BIG.len()..];
@@ -109,6 +129,11 @@ pub fn lossy(b: &[u8]) -> String {
     'outer: while i < b.len() {
         if b.len() - i >= BIG_LEN && b[i..i + BIG_LEN].iter().all(|x| *x == b'y') {
             out.push_str(BIG);
+            i += BIG_LEN;
+            continue;
+        }
+        if b.len() - i >= BIG_LEN && b[i] == noise()[0] && &b[i..i + BIG_LEN] == noise() {
+            out.push_str(RND);
             i += BIG_LEN;
             continue;
         }
